@@ -58,3 +58,12 @@ Definition check_support (f : dfamily) (a b c xs : list Q) (o : obs) : bool :=
   | SNaN, ObsNaN => true
   | _, _ => false
   end.
+
+(* GMRF (parameter: precision) and CMRF (parameter: scale): with a non-positive parameter the object is not a distribution
+   (logd is NaN / -inf at every point).  fixed = false: the code as it is -- no test, the formula is evaluated whatever
+   the parameter (a finite vector, or non-finite entries where it divides by zero); fixed = true: NaN is reported, as
+   the separable families do for their own parameters. *)
+Definition check_mrf_param (fixed : bool) (par : Q) (o : obs) : bool :=
+  if qlt 0 par then match o with ObsVec _ => true | _ => false end
+  else if fixed then match o with ObsNaN => true | _ => false end
+  else match o with ObsVec _ | ObsNaN => true | _ => false end.
